@@ -30,11 +30,62 @@ type c51Index struct {
 	normal    map[string]c51Rule // "co.uk"
 	wildcard  map[string]c51Rule // "*.ck" stored under "ck"
 	exception map[string]c51Rule // "!www.ck" stored under "www.ck"
+	// suffixOfRule holds every rule text and every proper suffix of one: the
+	// names for which any trie-shaped table has a node. Used only to name the
+	// abstract trigger of a failure, never for the expected result.
+	suffixOfRule map[string]bool
+}
+
+// implicit reports whether s is only an interior point of the rule tree: a
+// proper suffix of some rule that is not itself a rule of any kind.
+func (ix *c51Index) implicit(s string) bool {
+	if !ix.suffixOfRule[s] {
+		return false
+	}
+	_, a := ix.normal[s]
+	_, b := ix.wildcard[s]
+	_, c := ix.exception[s]
+	return !a && !b && !c
+}
+
+// c51Trigger classifies a name for signatures: "/via-implicit-node" when the
+// name's label path, below the node of the prevailing rule, passes through a
+// point of the rule tree that is not a rule itself.
+func c51Trigger(ix *c51Index, domain string, ref c51Ref) string {
+	labels := strings.Split(domain, ".")
+	n := len(labels)
+	prov := 0 // depth (labels) of the node that carries the prevailing rule
+	switch ref.kind {
+	case "normal":
+		prov = strings.Count(ref.suffix, ".") + 1
+	case "wildcard":
+		prov = strings.Count(ref.suffix, ".")
+	case "exception":
+		prov = strings.Count(ref.suffix, ".") + 2
+	}
+	for j := n - 1; j >= 0; j-- {
+		t := strings.Join(labels[j:], ".")
+		if !ix.suffixOfRule[t] {
+			break
+		}
+		if n-j > prov && ix.implicit(t) {
+			return "/via-implicit-node"
+		}
+	}
+	return ""
 }
 
 func c51BuildIndex() *c51Index {
-	ix := &c51Index{normal: map[string]c51Rule{}, wildcard: map[string]c51Rule{}, exception: map[string]c51Rule{}}
+	ix := &c51Index{normal: map[string]c51Rule{}, wildcard: map[string]c51Rule{}, exception: map[string]c51Rule{}, suffixOfRule: map[string]bool{}}
 	for i, r := range rules {
+		for t := strings.TrimPrefix(strings.TrimPrefix(r, "*."), "!"); ; {
+			ix.suffixOfRule[t] = true
+			j := strings.IndexByte(t, '.')
+			if j < 0 {
+				break
+			}
+			t = t[j+1:]
+		}
 		ru := c51Rule{idx: i, icann: i < numICANNRules}
 		switch {
 		case strings.HasPrefix(r, "*."):
@@ -119,7 +170,11 @@ func c51Check(w *vx.W, ix *c51Index, d string) {
 	if ref.icannOpen {
 		w.Outcome("icann-open")
 	} else if icann != ref.icann {
-		w.Failf("C51/icann/"+ref.kind, "PublicSuffix(%q) = (%q, icann=%v), the prevailing %s rule is in the %s section", d, ps, icann, ref.kind, map[bool]string{true: "ICANN", false: "private (or none)"}[ref.icann])
+		kind := ref.kind
+		if kind == "default" {
+			kind = "default-rule"
+		}
+		w.Failf("C51/icann/"+kind+c51Trigger(ix, d, ref), "PublicSuffix(%q) = (%q, icann=%v), the prevailing %s rule is in the %s section", d, ps, icann, ref.kind, map[bool]string{true: "ICANN", false: "private (or none)"}[ref.icann])
 		return
 	}
 	if ps2 := List.PublicSuffix(d); ps2 != ps {
